@@ -62,7 +62,7 @@ PROPS = {
         "level_text": "Structural clauses: every compiled procedure (transitively) passes Parallel/Precision/Window/Memory analysis in that order before "
         "Compiler; the collectors of externs/memories/configs/sub-procedures visit every node that can hold what they collect (so every referenced global is "
         "emitted); direct reads are emitted only behind can_read(), writes/reduces only through the memory's hooks; call boundaries compare precision, memory "
-        "and window-ness and raise; type tables agree with the ADT. Does not decide that gcc accepts the text in general. Also: every non-control read in comp_e lies behind the can_read gate (scalars included); extern helpers with precision-dependent signatures have precision-dependent names, and float-only C functions are not emitted for f64 operands; no `--` from a glued prefix minus.",
+        "and window-ness and raise; type tables agree with the ADT. Does not decide that gcc accepts the text in general. Also: every non-control read in comp_e lies behind the can_read gate (scalars included); extern helpers with precision-dependent signatures have precision-dependent names, and float-only C functions are not emitted for f64 operands; no `--` from a glued prefix minus. A window passed by name to a callee has the struct type the callee declares.",
         "level_note": "Trusted: ADT text; naming of the four backend passes. Not decided: C validity beyond the listed clauses.",
         "explanation": "BACKPIPE chain through compile_to_strings; TRAV on LoopIR_SubProcs/FindMems/FindExterns/FindConfigs/PrecisionAnalysis/WindowAnalysis; MEMGATE via must-dominance of a raising "
         "can_read guard over access_str; CALLBOUNDARY structural checks of the three call cases; TYPETABLES compares ctype/window shorthand/config ctyp/_typ_table with ADT constructors.",
@@ -142,7 +142,7 @@ PROPS = {
         "level_text": "Structural clauses: every primitive that inserts or deletes a configuration write or swaps a callee obtains the possibly-changed field set from "
         "Check_DeleteConfigWrite/Check_ExtendEqv and returns it; every API entry threads that set into Procedure(..., _mod_config=...) and Procedure.__init__ hands it to "
         "derive_proc; call_eqv reaches its edit only past `if not is_eqv: raise` on the result of get_strictest_eqv_proc(current callee, new) and passes the differing keys to "
-        "Check_ExtendEqv. Does not decide the global dataflow (globenv) or the SMT visibility conditions inside the two checks. Also: in the effect list of `Cfg.f = rhs` the reads of rhs precede the write (a write hides later reads of the same field), and the location-set transfer functions kill only what a write hides.",
+        "Check_ExtendEqv. Does not decide the global dataflow (globenv) or the SMT visibility conditions inside the two checks. Also: in the effect list of `Cfg.f = rhs` the reads of rhs precede the write (a write hides later reads of the same field), and the location-set transfer functions kill only what a write hides. The effects of a loop body start from the loop-invariant dataflow, and the indices of a right-hand-side read contribute their own reads.",
         "level_note": "Trusted: names of the two configuration checks; discovery of configuration-touching primitives by construction of LoopIR.WriteConfig / replacement of Call.f / DoDeleteConfig.",
         "explanation": "CFGMOD (a) primitives, (b) API call sites, (c) Procedure.__init__; EQVGATE via must-facts on DoCallSwap.",
         "assumptions": [],
@@ -181,7 +181,7 @@ PROPS = {
         "technique": "static analysis: identity-by-printed-name rule with triaged site table; dominance (must-facts with branch conditions) of literal tests over every delete/move in simplify; exhaustiveness/traversal of the two rewriters",
         "level_text": "Structural clauses: every place where simplify (or a rewrite it relies on) decides expression identity through printed names is enumerated and classified; "
         "a loop or branch is deleted only on paths dominated by a literal test of its condition/bounds (value-sensitive for branches) or emptiness of its rewritten body, and the "
-        "dead-code primitives only behind a Check_*; the two rewriters dispatch exhaustively and traverse completely. Does not decide value preservation of the normal form or of the div/mod rules (integer arithmetic). Also: the range of `x % c` is taken as [lo % c, hi % c] only when lo and hi lie in the same period of c.",
+        "dead-code primitives only behind a Check_*; the two rewriters dispatch exhaustively and traverse completely. Does not decide value preservation of the normal form or of the div/mod rules (integer arithmetic). Also: the range of `x % c` is taken as [lo % c, hi % c] only when lo and hi lie in the same period of c. A denominator is split only into complementary factors.",
         "level_note": "Trusted: triage table NAME_TRIAGE in rules/simplify.py (defect / advisory / sanitised, one reason each).",
         "explanation": "NAMECONF enumerates str()/name() comparisons, dict keys and use_sym_id=False patterns; DELGUARD runs a must-analysis with branch facts over DoSimplify.map_s and the two dead-code primitives.",
         "assumptions": [],
@@ -194,7 +194,7 @@ PROPS = {
         "level_text": "Structural clauses: every parsed procedure passes TypeChecker -> CheckBounds -> Check_Aliasing unconditionally, on the same object, and recorded errors raise; "
         "per statement kind the bounds checker issues the obligations of the property (trip count before the loop assumption, positive allocation/argument sizes, accesses vs. shapes, "
         "call shapes, callee assertions under substitution, callee effects folded in, branch conditions); the proved formulas have the property's own shape and a failed proof is reported; "
-        "read, write and reduce effects through windows are translated to the underlying buffer; dispatches are exhaustive. Does not decide the SMT encoding of / and % or of strides. Also: the SMT encoding of / and % is the floor quotient with both bounds; every effect value keeps one configuration write per field (the two branches of an `if` are merged, not concatenated); callee effects on several window arguments are translated as a fold.",
+        "read, write and reduce effects through windows are translated to the underlying buffer; dispatches are exhaustive. Does not decide the SMT encoding of / and % or of strides. Also: the SMT encoding of / and % is the floor quotient with both bounds; every effect value keeps one configuration write per field (the two branches of an `if` are merged, not concatenated); callee effects on several window arguments are translated as a fold. Zero-offset shortcuts of the window-index composition return the other operand.",
         "level_note": "Trusted: pysmt's is_valid/is_sat; ADT text. Patterns use metavariables (robust to renaming locals).",
         "explanation": "FRONTPIPE on Procedure.__init__; OBLIG on CheckBounds.map_stmts/__init__ per constructor case; BOUNDFORM on check_* helpers (relations normalised to < / <=); WINALIAS(bounds); EXH on typechecker and bounds dispatches; TRAV on _Check_Aliasing_Helper.",
         "assumptions": [],
